@@ -13,6 +13,7 @@ else
 fi
 pkg=./checks/$(echo "$id" | tr 'A-Z' 'a-z')
 mkdir -p bin evidence replays
+case "$id" in C07|C20) go test -race -tags verif -vet=off -c -o bin/race.test ./checks/race >bin/race.build.log 2>&1 || { echo "ENGINE-ERROR race build failed:"; cat bin/race.build.log; exit 2; } ;; esac
 case "$id" in C14|C16) go build -o bin/fakessh ./cmd/fakessh || { echo "ENGINE-ERROR building fakessh"; exit 2; } ;; esac
 go test -c -tags verif -vet=off -o "bin/$id.test" "$pkg" >bin/$id.build.log 2>&1 || { echo "ENGINE-ERROR build failed:"; cat bin/$id.build.log; exit 2; }
 VERIF_TIER="$tier" exec "./bin/$id.test" -test.run '^TestCheck$' -test.timeout=0
